@@ -864,8 +864,8 @@ pub async fn cmd_tls(args: Vec<String>) -> Result<()> {
         let (ca, ca_set) = if trust == "T" { (&ca1, &set1) } else { (&ca2, &set2) };
         let addr = servers.iter().find(|(n, _)| *n == sid).unwrap().1.addr;
         let ident_dir = match cid {
-            "trusted" | "chain_T_with_caO" => Some(set1.clone()),
-            "other_ca" | "chain_O_with_caT" => Some(set2.clone()),
+            "trusted" | "chain_T_with_caO" | "stolen_cert_O" => Some(set1.clone()),
+            "other_ca" | "chain_O_with_caT" | "stolen_cert_T" => Some(set2.clone()),
             "self_signed" => Some(ss_dir.clone()),
             _ => None,
         };
@@ -875,6 +875,9 @@ pub async fn cmd_tls(args: Vec<String>) -> Result<()> {
             let ident = match (cid, &ident_dir) {
                 ("borrowed_chain_self", _) => Some((vec![read_der(ss_dir.join("client/localhost.der"))?, trusted_public], read_der(ss_dir.join("client/localhost.key.der"))?)),
                 ("borrowed_chain_other", _) => Some((vec![read_der(set2.join("client/localhost.der"))?, trusted_public], read_der(set2.join("client/localhost.key.der"))?)),
+                // somebody else's certificate with a key of one's own (the identity directory supplies the key)
+                ("stolen_cert_T", Some(d)) => Some((vec![read_der(set1.join("client/localhost.der"))?], read_der(d.join("client/localhost.key.der"))?)),
+                ("stolen_cert_O", Some(d)) => Some((vec![read_der(set2.join("client/localhost.der"))?], read_der(d.join("client/localhost.key.der"))?)),
                 ("chain_T_with_caO", _) => Some((vec![read_der(set1.join("client/localhost.der"))?, read_der(set2.join("client/ca.der"))?], read_der(set1.join("client/localhost.key.der"))?)),
                 ("chain_O_with_caT", _) => Some((vec![read_der(set2.join("client/localhost.der"))?, read_der(set1.join("client/ca.der"))?], read_der(set2.join("client/localhost.key.der"))?)),
                 (_, Some(d)) => Some((vec![read_der(d.join("client/localhost.der"))?], read_der(d.join("client/localhost.key.der"))?)),
@@ -908,7 +911,15 @@ pub async fn cmd_tls(args: Vec<String>) -> Result<()> {
                     .endpoint(&addr.to_string())
                     .with_certificate_authority(ca_set.join("client/ca.der"))?
                     .with_cert_and_key(
-                        if cid.starts_with("chain_") { chain_dir.join(format!("{cid}.pem")) } else { d.join("client/localhost.der") },
+                        if cid.starts_with("chain_") {
+                            chain_dir.join(format!("{cid}.pem"))
+                        } else if cid == "stolen_cert_T" {
+                            set1.join("client/localhost.der")
+                        } else if cid == "stolen_cert_O" {
+                            set2.join("client/localhost.der")
+                        } else {
+                            d.join("client/localhost.der")
+                        },
                         d.join("client/localhost.key.der"),
                     )?
                     .connect()
